@@ -1,15 +1,28 @@
 (* Property C03: multi-threaded VCD loading equals single-threaded loading.
-   Pinned: (1) the parser side of the hand-over (handover_segment, chunk_simulates): a parser thread started in the
+   Pinned: (0) read_values_mt_equals_st: for every body written one token group per line (time stamp, scalar change,
+   vector/real/string change, $comment ... $end, $dumpvars/$end/$dumpoff/$dumpon, each followed by a newline; any content
+   the grammar of TokenProofs.line_ok admits) whose first line is a time stamp and whose time stamps increase, for every
+   max_threads and min_chunk, the model of read_values' multi-threaded branch (determine_thread_chunks, one run_chunk per
+   chunk, Encoder::append in chunk order, finish) and the model of its single-threaded branch produce stores from which
+   every bit-vector signal reports the same changes - although the blocks differ.  The steps: thread_first/thread_later
+   (which lines a thread started at an arbitrary byte offset parses: from the first line start after its offset to the
+   first time stamp line starting beyond its end), ops_tile (these pieces tile the sequential operation list without gap
+   or overlap), rec_concat (the recordings of the pieces, shifted by the time stamps before them, are the recording of
+   the whole), appended_transparent (what the appended stores report).
+   (1) the parser side of the hand-over for arbitrary layouts (handover_segment, chunk_simulates): a parser thread started in the
    middle of the body skips to the next line start and then emits - until its stop rule fires - exactly the events
    the sequential parser emits from that line start on, provided the sequential parser is between tokens there;
    no token is split, altered or invented at a seam.  (2) the storage side (appended_transparent for bit vectors, appended_transparent_rs for reals
    and strings): whatever the per-thread encoders recorded is reported in chunk order with shifted time indices, de-duplicated across seams.
-   NOT proved: that the segments of consecutive threads tile the sequential event list without gap or overlap
-   (it needs the line discipline of time stamps, and is false for the inputs of the known findings D8/D15/D16),
-   and that the concatenated per-thread recordings equal the sequential recording; that part is decided by the
-   correspondence run and the oracle. *)
+   NOT proved: (0) for real and string signals (the storage half exists: appended_transparent_rs), for bodies that
+   begin with value changes at the implicit time 0, and for layouts other than one token group per line (several
+   changes per line, indented lines); for those the tiling is decided by the correspondence run and the oracle.  The
+   hypotheses "first line is a time stamp", "time stamps increase", "every line ends in a newline" are exactly where the
+   known findings D8/D15/D16 live (Proofs/HandoverRefuted.v). *)
 From WV Require Import Model.Base Model.Bits Model.WaveMem Model.VcdBody Spec.TimeSpec Spec.StoreSpec
-  Proofs.TimeTableProofs Proofs.StoreProofs Proofs.EncoderProofs Proofs.BodyProofs Proofs.HandoverProofs Proofs.RealStringEnc.
+  Proofs.TimeTableProofs Proofs.StoreProofs Proofs.EncoderProofs Proofs.BodyProofs Proofs.HandoverProofs Proofs.RealStringEnc
+  Proofs.VcdStreamProofs Proofs.TokenProofs Proofs.TilingProofs Proofs.MtProofs.
+From Coq Require Import List Sorted. Import ListNotations.
 Open Scope N_scope.
 
 Check appended_transparent :
@@ -44,8 +57,8 @@ Check chunk_simulates :
   forall debug stop_c stop_s d A bytes sc ss,
   related d A sc ss -> no_underflow sc ->
   ps_pos ss + N.of_nat (length bytes) <= stop_s + 1 ->
-  exists more, events_of debug (run_bytes debug stop_s bytes ss)
-               = rev A ++ events_of debug (run_bytes debug stop_c bytes sc) ++ more.
+  exists more, HandoverProofs.events_of debug (run_bytes debug stop_s bytes ss)
+               = rev A ++ HandoverProofs.events_of debug (run_bytes debug stop_c bytes sc) ++ more.
 
 Check run_bytes_app :
   forall debug stop_pos a b s,
@@ -75,7 +88,73 @@ Check appended_transparent_rs :
     = Ok (map (fun a : N * list byte => (fst a, if str then KString else KReal, snd a))
               (gdedup (gcat_shift (combine Rs (map (fun ops => N.of_nat (length (accepted (times_of ops)))) opss)) 0))).
 
+
+Check read_values_mt_equals_st :
+  forall (parse_f64 : list byte -> option (list byte)) (lz_compress : list byte -> list byte)
+         (lz_decompress : list byte -> nat -> option (list byte)),
+  (forall d n, (length d <= n)%nat -> lz_decompress (lz_compress d) n = Some d) ->
+  forall cap, 1 <= cap -> cap <= 65536 ->
+  forall debug tpes lookup ls max_threads min_chunk b_st t_st b_mt t_mt id bits,
+  Forall line_ok ls -> starts_with_time ls -> (1 <= bits)%nat -> nth_error tpes id = Some (EncBits bits) ->
+  read_values_st parse_f64 lz_compress cap debug tpes lookup (body ls) = Ok (b_st, t_st) -> N.of_nat (length t_st) < 4294967296 ->
+  read_values_mt parse_f64 lz_compress cap debug tpes lookup (body ls) max_threads min_chunk = Ok (b_mt, t_mt) ->
+  N.of_nat (length t_mt) < 4294967296 ->
+  (forall ops, ops_of lookup true false (evs ls) = Some ops ->
+     StronglySorted N.lt (times_of ops) /\ N.of_nat (count_vcd id ops) * (10 + N.of_nat bits) < 4294967264) ->
+  exists s_st s_mt,
+    load_signal lz_decompress b_st id (EncBits bits) = Ok s_st /\
+    load_signal lz_decompress b_mt id (EncBits bits) = Ok s_mt /\
+    observe_signal s_st = observe_signal s_mt.
+
+Check mt_equals_st :
+  forall (parse_f64 : list byte -> option (list byte)) (lz_compress : list byte -> list byte)
+         (lz_decompress : list byte -> nat -> option (list byte)),
+  (forall d n, (length d <= n)%nat -> lz_decompress (lz_compress d) n = Some d) ->
+  forall cap, 1 <= cap -> cap <= 65536 ->
+  forall debug tpes lookup ls len0 rest stop_st e_st b_st t_st encs first others e_mt b_mt t_mt id bits,
+  Forall line_ok ls -> starts_with_time ls ->
+  contig 0 ((0%nat, len0) :: rest) -> (length (body ls) <= end_of 0 ((0%nat, len0) :: rest))%nat ->
+  (1 <= bits)%nat -> nth_error tpes id = Some (EncBits bits) ->
+  N.of_nat (length (body ls)) <= stop_st + 1 ->
+  read_single_stream parse_f64 lz_compress cap debug tpes lookup (body ls) stop_st true = Ok e_st ->
+  enc_finish lz_compress e_st = Ok (b_st, t_st) -> N.of_nat (length t_st) < 4294967296 ->
+  Forall2 (fun c en => run_chunk parse_f64 lz_compress cap debug tpes lookup (body ls) c = Ok en) ((0%nat, len0) :: rest) encs ->
+  encs = first :: others -> append_all lz_compress first others = Ok e_mt ->
+  enc_finish lz_compress e_mt = Ok (b_mt, t_mt) -> N.of_nat (length t_mt) < 4294967296 ->
+  (forall ops, ops_of lookup true false (evs ls) = Some ops ->
+     StronglySorted N.lt (times_of ops) /\ N.of_nat (count_vcd id ops) * (10 + N.of_nat bits) < 4294967264) ->
+  exists s_st s_mt,
+    load_signal lz_decompress b_st id (EncBits bits) = Ok s_st /\
+    load_signal lz_decompress b_mt id (EncBits bits) = Ok s_mt /\
+    observe_signal s_st = observe_signal s_mt.
+
+Check ops_tile :
+  forall lookup ls len0 rest ops, Forall line_ok ls -> starts_with_time ls ->
+  contig 0 ((0%nat, len0) :: rest) -> (length (body ls) <= end_of 0 ((0%nat, len0) :: rest))%nat ->
+  ops_of lookup true false (evs ls) = Some ops ->
+  exists opss, Forall2 (fun c o => thread_ops lookup ls c = Some o) ((0%nat, len0) :: rest) opss /\ ops = concat opss.
+
+Check thread_first :
+  forall debug ls len, Forall line_ok ls -> (1 <= len)%nat ->
+  parse_body debug (body ls) (N.of_nat (len - 1)) = (flat_map TokenProofs.events_of (cutabs len 1 ls), PDone).
+
+Check thread_later :
+  forall debug ls s len, Forall line_ok ls -> (1 <= s)%nat -> (s <= length (body ls))%nat -> (1 <= len)%nat ->
+  parse_body debug (skipn s (body ls)) (N.of_nat (len - 1))
+  = (flat_map TokenProofs.events_of (cutabs (s + len) (snd (after s 1 ls)) (fst (after s 1 ls))), PDone).
+
+Check chunks_shape :
+  forall body_len max_threads min_chunk chunks, (1 <= body_len)%nat ->
+  determine_thread_chunks body_len max_threads min_chunk = Ok chunks ->
+  exists len0 rest, chunks = (0%nat, len0) :: rest /\ contig 0 chunks /\ (body_len <= end_of 0 chunks)%nat.
+
 Print Assumptions handover_segment.
+Print Assumptions read_values_mt_equals_st.
+Print Assumptions mt_equals_st.
+Print Assumptions ops_tile.
+Print Assumptions thread_first.
+Print Assumptions thread_later.
+Print Assumptions chunks_shape.
 Print Assumptions appended_transparent_rs.
 Print Assumptions chunk_simulates.
 Print Assumptions appended_transparent.
